@@ -10,15 +10,16 @@ pk={'S':['Proofs/Reach','Proofs/Release','Proofs/ProtoInv','Proofs/BuilderInv','
 'G':[]}
 import os
 for a in sys.argv[1:]:
-    k,f=a.split(':'); pk[k].append(f)
+    k,f=a.split(':'); pk.setdefault(k,[]).append(f)
 root='/verif/lean/FnGraphVerif/'
 pk={k:[f for f in fs if os.path.exists(root+f+'.lean')] for k,fs in pk.items()}
 for k,fs in pk.items():
     if k=='S': continue
     for f in fs:
         p=root+f+'.lean'; s=open(p).read()
-        s2=re.sub(r"\b(ex[A-Z][A-Za-z0-9_]*)", lambda m: m.group(1) if m.group(1).endswith('_'+k) else m.group(1)+'_'+k, s)
-        s2=re.sub(r"\b(cx[A-Z][A-Za-z0-9_]*)", lambda m: m.group(1) if m.group(1).endswith('_'+k) else m.group(1)+'_'+k, s2)
+        SUF=re.compile(r"_(B|C|D|D2|E|F|G|H|I|K|L|M|N)$")
+        s2=re.sub(r"\b(ex[A-Z][A-Za-z0-9_]*)", lambda m: m.group(1) if SUF.search(m.group(1)) else m.group(1)+'_'+k, s)
+        s2=re.sub(r"\b(cx[A-Z][A-Za-z0-9_]*)", lambda m: m.group(1) if SUF.search(m.group(1)) else m.group(1)+'_'+k, s2)
         open(p,'w').write(s2)
 decl=collections.defaultdict(list)
 for k,fs in pk.items():
